@@ -2,7 +2,7 @@
 intervals and, for partial (panic-capable) functions, the proof goal under which they do not
 panic.  The table of partial functions is also the enumeration used by the PF engine."""
 from . import core, flow
-from .ia import INT_BITS, SLICE_LEN_MAX, clip, join, meet, ty_range
+from .ia import INT_BITS, SLICE_LEN_MAX, clip, join, meet, ty_range, type_len, type_cap
 
 # partial callees: stripped path -> short class name.  Anything listed here is a panic site.
 PARTIAL = {
@@ -141,7 +141,235 @@ def arrayvec_cap_from_callee(c):
 
 
 def extern_call(an, f, st, t, c, argiv):
-    """Returns (ret dict {subpath: interval} or None, goal (proved, desc, detail) or None)."""
+    """Returns (ret dict {subpath: interval} or None, goal (proved, desc, detail) or None,
+    effects [(owner local, new #len)] or None = havoc every &mut argument)."""
+    ret, goal = _extern_call(an, f, st, t, c, argiv)
+    r2, g2, eff = _len_model(an, f, st, t, c, argiv)
+    if r2 is not None:
+        ret = dict(ret or {})
+        ret.update(r2)
+    if g2 is not None:
+        goal = g2
+    return ret, goal, eff
+
+
+def _rng_bounds(an, f, st, o):
+    """(start interval, end interval or None, kind) of a range operand."""
+    p = core.op_place(o)
+    if p is None:
+        return None
+    ty = strip_generic_ws(p["ty"])
+    key = an.op_key(st, o)
+
+    def sub(name):
+        return st.v.get((key[0], key[1] + (name,))) if key is not None else None
+    if ty.startswith("core::ops::range::RangeFull"):
+        return ("full", None, None)
+    if ty.startswith("core::ops::range::RangeInclusive"):
+        return None
+    if ty.startswith("core::ops::range::RangeToInclusive"):
+        e = sub("end")
+        return ("to", (0, 0), (e[0] + 1, e[1] + 1)) if e else None
+    if ty.startswith("core::ops::range::RangeTo"):
+        e = sub("end")
+        return ("to", (0, 0), e) if e else None
+    if ty.startswith("core::ops::range::RangeFrom"):
+        s_ = sub("start")
+        return ("from", s_, None) if s_ else None
+    if ty.startswith("core::ops::range::Range"):
+        s_, e = sub("start"), sub("end")
+        return ("range", s_, e) if (s_ and e) else None
+    return None
+
+
+def strip_generic_ws(s):
+    return s.lstrip("&").strip()
+
+
+def _len_model(an, f, st, t, c, argiv):
+    """Lengths of fixed-capacity vectors / arrays / slices and Ok-ness of conversions."""
+    decl, res = resolved_decl(c)
+    name = res or decl
+    last = name.rsplit("::", 1)[-1]
+    args = t["args"]
+    dty = t["dest"]["ty"]
+    L0 = an.len_of_operand(f, st, args[0]) if args else None
+    owner0 = None
+    if args:
+        p0 = core.op_place(args[0])
+        if p0 is not None and p0["ty"].startswith("&mut "):
+            owner0 = flow.resolve_owner(f, args[0], want_mut=True)
+    cap0 = None
+    if args and core.op_place(args[0]) is not None:
+        cap0 = type_cap(core.op_place(args[0])["ty"])
+    is_av = "tinyvec::arrayvec::ArrayVec" in name or "tinyvec::arrayvec::ArrayVec" in c.get("s", "")
+    ret = goal = None
+    eff = None
+
+    if name in ("tinyvec::arrayvec::ArrayVec::new",) or (last == "default" and type_cap(dty) is not None and "ArrayVec<" in dty):
+        return {("#len",): (0, 0)}, None, []
+    if name == "tinyvec::arrayvec::ArrayVec::from_array_len":
+        n = type_cap(dty)
+        a1 = argiv[1] if len(argiv) > 1 else None
+        if a1 is not None and n is not None:
+            return {("#len",): (min(a1[0], n), min(a1[1], n))}, None, []
+        return {}, None, []
+    if last == "from" and "ArrayVec<" in dty and "From<" in c.get("s", "") and "ArrayVec" in name:
+        n = type_cap(dty)
+        return ({("#len",): (n, n)} if n is not None else {}), None, []
+    if last == "try_from" and "TryFrom" in name and "ArrayVec" in name:
+        # ArrayVec::<[T;N]>::try_from(&[T]) : Ok iff len <= N
+        inner = None
+        m = None
+        import re
+        m = re.search(r"ArrayVec<\[.*?; (\d+)\]>", dty)
+        n = int(m.group(1)) if m else None
+        if L0 is not None and n is not None:
+            ok = (1, 1) if L0[1] <= n else ((0, 0) if L0[0] > n else (0, 1))
+            return {("#ok",): ok, ("@Ok", "0", "#len"): (L0[0], min(L0[1], n))}, None, []
+        return {}, None, []
+    if last == "try_into" and "TryInto" in name:
+        # &[T] -> [T; K] / &[T; K]: Ok iff len == K
+        import re
+        m = re.search(r"core::result::Result<&?\[.*?; (\d+)\]", dty)
+        if m and L0 is not None:
+            k = int(m.group(1))
+            ok = (1, 1) if L0 == (k, k) else ((0, 0) if (L0[1] < k or L0[0] > k) else (0, 1))
+            return {("#ok",): ok}, None, []
+        return None, None, None
+    if name in ("core::option::Option::unwrap", "core::option::Option::expect", "core::result::Result::unwrap", "core::result::Result::expect"):
+        okv = an.sub_of_operand(st, args[0], ("#ok",))
+        proved = okv == (1, 1)
+        variant = "@Some" if "Option" in name else "@Ok"
+        r = {}
+        key = an.op_key(st, args[0])
+        if key is not None:
+            pre = key[1] + (variant, "0")
+            for kk, vv in st.v.items():
+                if kk[0] == key[0] and kk[1][: len(pre)] == pre:
+                    r[kk[1][len(pre):]] = vv
+        return r, (proved, "unwrap", "Ok-ness of the operand: %s" % (okv,)), []
+    if name in ("core::result::Result::ok", "core::result::Result::map_err", "core::option::Option::ok_or", "core::option::Option::ok_or_else",
+                "core::ops::try_trait::Try::branch") or (last == "branch" and "Try" in name):
+        okv = an.sub_of_operand(st, args[0], ("#ok",))
+        r = {}
+        key = an.op_key(st, args[0])
+        src_v = "@Some" if "Option" in (core.op_place(args[0]) or {}).get("ty", "") and "core::option::Option" in core.op_place(args[0])["ty"][:24] else "@Ok"
+        if last == "branch":
+            dst_v = "@Continue"
+        elif last in ("ok",):
+            dst_v = "@Some"
+        elif last in ("ok_or", "ok_or_else", "map_err"):
+            dst_v = "@Ok"
+        else:
+            dst_v = src_v
+        if okv is not None:
+            r[("#ok",)] = okv
+        if key is not None:
+            pre = key[1] + (src_v, "0")
+            for kk, vv in st.v.items():
+                if kk[0] == key[0] and kk[1][: len(pre)] == pre:
+                    r[(dst_v, "0") + kk[1][len(pre):]] = vv
+        return r, None, []
+    if name == "tinyvec::arrayvec::ArrayVec::push":
+        cur = an.len_of_operand(f, st, {"k": "copy", "place": {"local": owner0, "proj": [], "ty": core.op_place(args[0])["ty"]}}) if owner0 is not None else L0
+        n = cap0
+        if cur is not None and n is not None:
+            proved = cur[1] < n
+            return {}, (proved, "capacity", "len=%s capacity=%d" % (cur, n)), [(owner0, (min(cur[0] + 1, n), min(cur[1] + 1, n)))]
+        return {}, (False, "capacity", "length unknown"), None
+    if name == "tinyvec::arrayvec::ArrayVec::extend_from_slice":
+        cur = an.len_of_operand(f, st, {"k": "copy", "place": {"local": owner0, "proj": [], "ty": core.op_place(args[0])["ty"]}}) if owner0 is not None else L0
+        add = an.len_of_operand(f, st, args[1]) if len(args) > 1 else None
+        n = cap0
+        if cur is not None and add is not None and n is not None:
+            proved = cur[1] + add[1] <= n
+            return {}, (proved, "capacity", "len=%s + %s capacity=%d" % (cur, add, n)), [(owner0, (min(cur[0] + add[0], n), min(cur[1] + add[1], n)))]
+        return {}, (False, "capacity", "lengths unknown: %s + %s" % (cur, add)), None
+    if last in ("as_slice", "as_mut_slice", "deref", "deref_mut", "as_ref", "as_mut", "borrow", "borrow_mut", "iter", "iter_mut") and L0 is not None and \
+            (is_av or "core::array" in name or "core::slice" in name or "[" in (core.op_place(args[0]) or {"ty": ""})["ty"]):
+        return {("#len",): L0}, None, []
+    if last == "len" and L0 is not None and (is_av or name in ("core::slice::len",)):
+        return {(): L0}, None, []
+    if last == "is_empty" and L0 is not None and (is_av or name in ("core::slice::is_empty",)):
+        lk = None
+        p0 = core.op_place(args[0])
+        own = flow.resolve_owner(f, args[0]) if p0 is not None else None
+        if own is not None:
+            lk = (own, ("#len",))
+        res = (1, 1) if L0 == (0, 0) else ((0, 0) if L0[0] >= 1 else (0, 1))
+        r = {(): res}
+        if lk is not None:
+            r[("#cmp",)] = ("Eq", lk, L0, None, (0, 0))
+        return r, None, []
+    if last == "enumerate" and args:
+        if L0 is not None:
+            return {("#len",): L0, ("#eidx",): (0, max(L0[1] - 1, 0))}, None, []
+        return {}, None, []
+    if last in ("skip", "rev", "into_iter", "by_ref", "take", "iter", "iter_mut", "peekable", "copied", "cloned") and args:
+        r = {}
+        key = an.op_key(st, args[0])
+        if key is not None:
+            for sub in (("#len",), ("#eidx",), ("#item",)):
+                v = st.v.get((key[0], key[1] + sub))
+                if v is not None:
+                    r[sub] = v
+        if L0 is not None and ("#len",) not in r and last in ("iter", "iter_mut", "into_iter"):
+            r[("#len",)] = L0
+        if last == "skip" and ("#eidx",) in r and len(argiv) > 1 and argiv[1] is not None:
+            lo, hi = r[("#eidx",)]
+            r[("#eidx",)] = (min(lo + argiv[1][0], max(hi, lo + argiv[1][0])), max(hi, lo + argiv[1][0]))
+        if r:
+            return r, None, []
+    if last in ("index", "index_mut") and args and len(args) == 2 and ("Index" in c.get("s", "") or name.startswith("core::slice::index") or name.startswith("core::array")):
+        base = L0
+        rb = _rng_bounds(an, f, st, args[1])
+        idx_iv = argiv[1]
+        if base is None:
+            return None, None, []
+        if idx_iv is not None and ty_range({"s": core.op_place(args[1])["ty"]} if core.op_place(args[1]) else args[1]["ty"]) is not None:
+            proved = idx_iv[1] < base[0]
+            return {}, (proved, "index", "index=%s len=%s" % (idx_iv, base)), []
+        if rb is None:
+            return None, None, []
+        kind, s_, e = rb
+        if kind == "full":
+            return {("#len",): base}, (True, "index", "full range"), []
+        if kind == "to":
+            proved = e[1] <= base[0]
+            return {("#len",): e}, (proved, "slice-index", "..%s of len %s" % (e, base)), []
+        if kind == "from":
+            proved = s_[1] <= base[0]
+            return {("#len",): (max(base[0] - s_[1], 0), max(base[1] - s_[0], 0))}, (proved, "slice-index", "%s.. of len %s" % (s_, base)), []
+        if kind == "range":
+            proved = s_[1] <= e[0] and e[1] <= base[0]
+            return {("#len",): (max(e[0] - s_[1], 0), max(e[1] - s_[0], 0))}, (proved, "slice-index", "%s..%s of len %s" % (s_, e, base)), []
+    if name in ("core::slice::copy_from_slice", "core::slice::clone_from_slice") and len(args) == 2:
+        a, b_ = L0, an.len_of_operand(f, st, args[1])
+        proved = a is not None and b_ is not None and a[0] == a[1] == b_[0] == b_[1]
+        return {}, (proved, "copy-len", "dst=%s src=%s" % (a, b_)), []
+    if name in ("core::slice::split_at", "core::slice::split_at_mut") and len(args) == 2:
+        mid = argiv[1]
+        if L0 is not None and mid is not None:
+            proved = mid[1] <= L0[0]
+            return {("0", "#len"): mid, ("1", "#len"): (max(L0[0] - mid[1], 0), max(L0[1] - mid[0], 0))}, (proved, "split", "mid=%s len=%s" % (mid, L0)), []
+    if name in ("core::slice::get", "core::slice::get_mut") and len(args) == 2:
+        rb = _rng_bounds(an, f, st, args[1])
+        if rb and L0 is not None:
+            kind, s_, e = rb
+            if kind == "range":
+                return {("@Some", "0", "#len"): (max(e[0] - s_[1], 0), max(e[1] - s_[0], 0))}, None, []
+            if kind == "to":
+                return {("@Some", "0", "#len"): e}, None, []
+            if kind == "from":
+                return {("@Some", "0", "#len"): (max(L0[0] - s_[1], 0), max(L0[1] - s_[0], 0))}, None, []
+        return {}, None, []
+    if name in ("core::slice::fill", "core::slice::iter", "core::slice::iter_mut", "core::slice::is_empty", "core::slice::first", "core::slice::last"):
+        return None, None, []
+    return None, None, None
+
+
+def _extern_call(an, f, st, t, c, argiv):
     decl, res = resolved_decl(c)
     name = res or decl
     an.extern_seen[name] = an.extern_seen.get(name, 0) + 1
@@ -213,6 +441,8 @@ def extern_call(an, f, st, t, c, argiv):
         ret = {(): (n, n)} if n is not None else {(): (0, SLICE_LEN_MAX)}
     elif last in ("into", "from") and rng is not None and a0 is not None and ("convert" in name):
         ret = {(): clip(a0, rng)}
+    elif last == "next" and iter_owner(f, t["args"][0]) is not None and st.v.get((iter_owner(f, t["args"][0]), ("#eidx",))) is not None:
+        ret = {("@Some", "0", "0"): st.v[(iter_owner(f, t["args"][0]), ("#eidx",))]}
     elif "iter::range" in name and last == "next" or (last == "next" and ("Rev<" in c.get("s", "") or "StepBy<" in c.get("s", "") or "Skip<" in c.get("s", "")) and "Range" in c.get("s", "")):
         owner = iter_owner(f, t["args"][0])
         item = st.v.get((owner, ("#item",))) if owner is not None else None
